@@ -43,9 +43,12 @@ _HANG = {}
 def run_guarded(execute, *args, **kw):
     """One execution under a watchdog.  -> (outcome, violation) like the executors; a service call
     that never returns becomes the violation '<Target>|hangs|<function it spins in>'."""
+    if _HANG.get("count", 0) >= 3:      # this work item keeps hanging: do not spend 3 s on each further input
+        return "skipped-after-3-hangs", None
     res, hang = split.guarded(lambda: execute(*args, **kw), SHORT, LONG, _HANG)
     if hang is None:
         return res
+    _HANG["count"] = _HANG.get("count", 0) + 1
     target = {"server_exec": "Valet", "porter_exec": "Porter", "client_exec": "Patron"}[execute.__name__]
     return "hangs", ("%s|hangs|%s" % (target, split.stuck_in(hang, "/ioflo/aio/")),
                      "%s.serviceAll never returns (no progress for %.0f s, confirmed with %.0f s): the service loop spins in %s, "
